@@ -307,19 +307,33 @@ DOMNode* DOMTreeWalkerImpl::getParentNode (DOMNode* node) {
 
 DOMNode* DOMTreeWalkerImpl::getNextSibling (DOMNode* node) {
 
-    if (!node || node == fRoot) return 0;
+    return getNextSibling(node, fRoot);
+
+}
+
+
+/** Internal function.
+ *  Return the nextSibling Node, from the input node
+ *  after applying filter, whatToshow.
+ *  The search climbs out of skipped parents, but never out of root.
+ *  The current node is not consulted or set.
+ */
+
+DOMNode* DOMTreeWalkerImpl::getNextSibling (DOMNode* node, DOMNode* root) {
+
+    if (!node || node == root) return 0;
 
     DOMNode* newNode = node->getNextSibling();
     if (!newNode) {
 
         newNode = node->getParentNode();
 
-        if (!newNode || node == fRoot)  return 0;
+        if (!newNode || newNode == root)  return 0;
 
         short parentAccept = acceptNode(newNode);
 
         if (parentAccept == DOMNodeFilter::FILTER_SKIP) {
-            return getNextSibling(newNode);
+            return getNextSibling(newNode, root);
         }
 
         return 0;
@@ -332,12 +346,12 @@ DOMNode* DOMTreeWalkerImpl::getNextSibling (DOMNode* node) {
     else
     if (accept == DOMNodeFilter::FILTER_SKIP) {
         DOMNode* fChild =  getFirstChild(newNode);
-        if (!fChild && !newNode->hasChildNodes()) {
-            return getNextSibling(newNode);
+        if (!fChild) {
+            return getNextSibling(newNode, root);
         }
         return fChild;
     }
-    return getNextSibling(newNode);
+    return getNextSibling(newNode, root);
 
 }
 
@@ -350,18 +364,32 @@ DOMNode* DOMTreeWalkerImpl::getNextSibling (DOMNode* node) {
 
 DOMNode* DOMTreeWalkerImpl::getPreviousSibling (DOMNode* node) {
 
-    if (!node || node == fRoot) return 0;
+    return getPreviousSibling(node, fRoot);
+
+}
+
+
+/** Internal function.
+ *  Return the previous sibling Node, from the input node
+ *  after applying filter, whatToshow.
+ *  The search climbs out of skipped parents, but never out of root.
+ *  The current node is not consulted or set.
+ */
+
+DOMNode* DOMTreeWalkerImpl::getPreviousSibling (DOMNode* node, DOMNode* root) {
+
+    if (!node || node == root) return 0;
 
     DOMNode* newNode = node->getPreviousSibling();
     if (!newNode) {
 
         newNode = node->getParentNode();
-        if (!newNode || node == fRoot)  return 0;
+        if (!newNode || newNode == root)  return 0;
 
         short parentAccept = acceptNode(newNode);
 
         if (parentAccept == DOMNodeFilter::FILTER_SKIP) {
-            return getPreviousSibling(newNode);
+            return getPreviousSibling(newNode, root);
         }
 
         return 0;
@@ -374,12 +402,12 @@ DOMNode* DOMTreeWalkerImpl::getPreviousSibling (DOMNode* node) {
     else
     if (accept == DOMNodeFilter::FILTER_SKIP) {
         DOMNode* fChild =  getLastChild(newNode);
-        if (!fChild && !newNode->hasChildNodes()) {
-            return getPreviousSibling(newNode);
+        if (!fChild) {
+            return getPreviousSibling(newNode, root);
         }
         return fChild;
     }
-    return getPreviousSibling(newNode);
+    return getPreviousSibling(newNode, root);
 
 }
 
@@ -408,9 +436,12 @@ DOMNode* DOMTreeWalkerImpl::getFirstChild (DOMNode* node) {
     if (accept == DOMNodeFilter::FILTER_SKIP
         && newNode->hasChildNodes())
     {
-        return getFirstChild(newNode);
+        DOMNode* fChild = getFirstChild(newNode);
+        if (fChild != 0)
+            return fChild;
     }
-    return getNextSibling(newNode);
+    // look at the following children of node, never beyond them
+    return getNextSibling(newNode, node);
 
 }
 
@@ -439,9 +470,12 @@ DOMNode* DOMTreeWalkerImpl::getLastChild (DOMNode* node) {
     if (accept == DOMNodeFilter::FILTER_SKIP
         && newNode->hasChildNodes())
     {
-        return getLastChild(newNode);
+        DOMNode* lChild = getLastChild(newNode);
+        if (lChild != 0)
+            return lChild;
     }
-    return getPreviousSibling(newNode);
+    // look at the preceding children of node, never beyond them
+    return getPreviousSibling(newNode, node);
 
 }
 
